@@ -10,6 +10,16 @@ def G(model, **kw):
 
 
 # parts are "<r1|r2|o1|o2>.<Name>" or "Sdk.Equal"
+def L(model, **kw):
+    d = dict(kind="L", model=model)
+    d.update(kw)
+    return d
+
+
+def labparts(*names):
+    return re.compile(r"^(lang|v1|v2|scan)\.(%s)$" % "|".join(names))
+
+
 def parts(*names):
     return re.compile(r"^(r1|r2|o1|o2)\.(%s)$" % "|".join(names))
 
@@ -131,6 +141,18 @@ PROPS["C17"] = dict(
                "models) - are issued through the aws-sdk-go client and the aws-sdk-go-v2 client; at every step TLC compares the two normalised "
                "answers (error class, items in order, counts, pagination keys, descriptions, unprocessed sets) in addition to judging each "
                "against the specification.",
+)
+PROPS["C06"] = dict(
+    title="condition, filter and key expressions evaluate per DynamoDB semantics",
+    quick=[L("M_EXPR")],
+    thorough=[L("M_EXPR", cfg="M_EXPR_t")],
+    own=[labparts("Outcome", "Modified", "NoCrash")],
+    design_ref="DESIGN.md 6 C06",
+    level_text="TLC enumerates condition expressions - every atom shape (six comparators, BETWEEN, IN, attribute_exists / _not_exists / "
+               "_type, begins_with, contains, size, nested paths, name placeholders) under every typing of its operands (each of the ten "
+               "types, two of the ordered ones, or absent) plus AND / OR / NOT structures that expose precedence - and the harness evaluates "
+               "each through interpreter.Language, conditional PutItem on both clients and a Scan filter; TLC recomputes the truth value "
+               "with CondOut (Expr.tla) and checks that evaluation left the item unchanged.",
 )
 
 # properties deliberately not claimed, with the reason (none so far: unbuilt ones get a work-in-progress reason)
